@@ -132,9 +132,9 @@ PLAN = {
     "C10": {
         "streams": {
             "quick": [{"stream": "fault", "args": ["-n", "32", "-len", "8", "-workers", "16", "-watchdog", "4", "-rs", "20,3"], "timeout": 1500},
-                      fs(100, 14, "C10", wild=True)],
+                      fs(100, 14, "C10", wild=True), fs(64, 30, "C10", mode="file", rs="20,3")],
             "thorough": [{"stream": "fault", "args": ["-n", "400", "-len", "10", "-workers", "16", "-watchdog", "5", "-rs", "20,1,3,7"], "timeout": 7000},
-                         fs(2000, 18, "C10", wild=True, timeout=6000)],
+                         fs(2000, 18, "C10", wild=True, timeout=6000), fs(1500, 40, "C10", mode="file", timeout=6000)],
         },
         "generated": ["Stfs/Gen/Locks.lean (lock skeleton of every function in pkg/operations, pkg/tape/manager.go, pkg/fs)"],
         "trusted_base": BASE_TRUST,
